@@ -134,7 +134,7 @@ def scenarios(ctx):
 def run(ctx):
     ctx.level = "model_checking"
     # E1: the property predicates as invariants of the composite (spec/MC_Rapid.tla)
-    mcrapid.check(ctx, ['RuntimeAfterRegistrations', 'NoEventBeforeAllNext'])
+    mcrapid.check(ctx, ['RuntimeAfterRegistrations', 'NoEventBeforeAllNext'], extra_configs=('internal',) if ctx.quick else ('internal', 'internal2'))
     # forced schedules through the pause points of /repo (-tags verif)
     sc.run_families(ctx, forced.scenarios('c03', ('clear-vs-invoke', 'register-vs-close')), "forced-schedule")
     ctx.assumptions += sc.ASSUME
